@@ -97,10 +97,12 @@ func (c *TraitOf[V]) NotifyWritten(ctx context.Context, key []byte, value V, ttl
 
 // TraitEntryOf is a cache entry.
 type TraitEntryOf[V any] struct {
-	K Key   `json:"key" description:"Cache entry key."`
-	V V     `json:"val" description:"Cache entry value."`
+	// E and C are accessed atomically, they have to be at the beginning of the struct to be 64-bit aligned
+	// on 32-bit platforms.
 	E int64 `json:"exp" description:"Expiration timestamp, ns."`
 	C int64 `json:"-" description:"Usage count or last serve timestamp (ns)."`
+	K Key   `json:"key" description:"Cache entry key."`
+	V V     `json:"val" description:"Cache entry value."`
 }
 
 var _ EntryOf[any] = TraitEntryOf[any]{}
